@@ -101,6 +101,7 @@ let cat_res (rs : 'a list res list) : 'a list res =
 (* C16 speaks about WHICH devices are selected, not about the order in which a listing returns them: a real result
    that is a permutation of the reference list is judged as that list (n_reordered counts them) *)
 let n_reordered = ref 0
+let n_outside = ref 0
 let as_perm_of (eq : 'a -> 'a -> bool) (real : 'a list res) (reference : 'a list res) : 'a list res =
   match real, reference with
   | Ok a, Ok b when List.length a = List.length b && a <> b ->
@@ -123,6 +124,30 @@ let n_evals = ref 0 and n_samples = ref 0 and n_oracle_panics = ref 0 and n_excl
 let seen : (string, unit) Hashtbl.t = Hashtbl.create 4096
 let with_entries = ref false
 
+let outside_kernel_format (text : bytes) : bool =
+    (* the kernel's own format (drivers/input/input.c, input_devices_seq_show): bitmap lines are lower-case hex words
+       separated by single blanks; a sysfs path is empty or starts with one '/' and has no blank at either end and no
+       "//"; no carriage return anywhere.  Names, Phys, Uniq are free; fields may be missing, repeated, in any order. *)
+    let str = String.concat "" (List.map (fun b -> String.make 1 (Char.chr (int_of_n b land 255))) text) in
+    let bad_line (l : string) : bool =
+      let n = String.length l in
+      let value () = (try String.sub l (String.index l '=' + 1) (n - String.index l '=' - 1) with Not_found -> "") in
+      if n >= 3 && String.sub l 0 3 = "B: " then begin
+        let v = value () in
+        v = "" || v.[0] = ' ' || v.[String.length v - 1] = ' '
+        || (let bad = ref false and prev_sp = ref false in
+            String.iter (fun ch ->
+                if ch = ' ' then (if !prev_sp then bad := true; prev_sp := true)
+                else begin prev_sp := false; if not ((ch >= '0' && ch <= '9') || (ch >= 'a' && ch <= 'f')) then bad := true end) v;
+            !bad)
+      end else if n >= 9 && String.sub l 0 9 = "S: Sysfs=" then begin
+        let v = value () in
+        let m = String.length v in
+        m > 0 && (v.[0] <> '/' || v.[m - 1] = ' ' || v.[m - 1] = '\t' || (m > 1 && v.[1] = '/')
+                  || (let dbl = ref false in String.iteri (fun i ch -> if ch = '/' && i + 1 < m && v.[i + 1] = '/' then dbl := true) v; !dbl))
+      end else false in
+    String.contains str '\r' || List.exists bad_line (String.split_on_char '\n' str)
+
 let process_t (c : tcase) =
   incr n_texts;
   let text = bytes_of_hex c.text_hex in
@@ -132,13 +157,18 @@ let process_t (c : tcase) =
   let rk = as_perm_of beq_kdev rk mk and rd = as_perm_of beq_idev rd md in
   ignore rk_raw;
   n_evals := !n_evals + 2;
+  (* C16 quantifies over texts in the kernel's format.  A text with a carriage return, or with upper-case hex digits in
+     a bitmap line, is not one (the generator writes some to pin the model down): a difference there is reported in a
+     class of its own that C16 does not observe (n_outside counts them) *)
+  let outside = outside_kernel_format text in
+  let cls name = if outside then (incr n_outside; name ^ "_OUTSIDE_KERNEL_FORMAT") else name in
   if not (eq_k rk mk) then begin
     incr n_diffs;
-    Printf.printf "DIFF class=KBD id=%s family=%s text=%s impl=%s model=%s\n" c.id c.family c.text_hex (enc_k rk) (enc_k mk)
+    Printf.printf "DIFF class=%s id=%s family=%s text=%s impl=%s model=%s\n" (cls "KBD") c.id c.family c.text_hex (enc_k rk) (enc_k mk)
   end;
   if not (eq_d rd md) then begin
     incr n_diffs;
-    Printf.printf "DIFF class=DEVS id=%s family=%s text=%s impl=%s model=%s\n" c.id c.family c.text_hex (enc_d rd) (enc_d md)
+    Printf.printf "DIFF class=%s id=%s family=%s text=%s impl=%s model=%s\n" (cls "DEVS") c.id c.family c.text_hex (enc_d rd) (enc_d md)
   end;
   (* the harness's decomposition into entries must be the model's *)
   let (pre, es) = split_entries (split_lines text) in
@@ -184,11 +214,11 @@ let process_t (c : tcase) =
     (match med with p :: rest -> if not (local_ok beq_idev md p rest) then Printf.printf "CHECKER-FAILED local_ok(dev) fails on the model for text %s\n" c.text_hex | [] -> ());
     if List.length mek = List.length rek && not (List.for_all2 (fun r m -> eq_k (as_perm_of beq_kdev r m) m) rek mek) then begin
       incr n_diffs;
-      Printf.printf "DIFF class=KBD id=%s family=%s-entry text=%s impl=%s model=%s\n" c.id c.family c.text_hex (enc_k (cat_res rek)) (enc_k (cat_res mek))
+      Printf.printf "DIFF class=%s id=%s family=%s-entry text=%s impl=%s model=%s\n" (cls "KBD") c.id c.family c.text_hex (enc_k (cat_res rek)) (enc_k (cat_res mek))
     end;
     if List.length med = List.length red && not (List.for_all2 (fun r m -> eq_d (as_perm_of beq_idev r m) m) red med) then begin
       incr n_diffs;
-      Printf.printf "DIFF class=DEVS id=%s family=%s-entry text=%s impl=%s model=%s\n" c.id c.family c.text_hex (enc_d (cat_res red)) (enc_d (cat_res med))
+      Printf.printf "DIFF class=%s id=%s family=%s-entry text=%s impl=%s model=%s\n" (cls "DEVS") c.id c.family c.text_hex (enc_d (cat_res red)) (enc_d (cat_res med))
     end
   end;
   (* statistics *)
@@ -329,7 +359,8 @@ let run_ns (dir : string) (nsout : string) =
       let cur_basis = ref "value" in
       let diff what impl model =
         incr n_diffs;
-        Printf.printf "DIFF class=SELECT basis=%s scenario=%s what=%s impl=%s model=%s\n" !cur_basis spec what impl model in
+        Printf.printf "DIFF class=%s basis=%s scenario=%s what=%s impl=%s model=%s\n"
+          (if outside_kernel_format text then (incr n_outside; "SELECT_OUTSIDE_KERNEL_FORMAT") else "SELECT") !cur_basis spec what impl model in
       let hit clause engine observed expected =
         incr n_hits;
         Printf.printf "HIT clause=%s basis=%s engine=%s scenario=%s observed=%s expected=%s\n" clause !cur_basis engine spec observed expected in
